@@ -258,7 +258,25 @@ def gen_tree(rnd, idx):
         # ../name  ->  ../<this directory>/../name
         return '../' + os.path.basename(incl_dir) + '/' + written
 
-    def make_file(path, depth, chain):
+    def reuse_ancestor_name(d, wchain):
+        """an include written exactly like the include of one of its own ancestors, which the search rule nevertheless
+        resolves to another file (proj/sub/x.asm, included as `sub/x.asm`, includes `sub/x.asm` = proj/sub/sub/x.asm).
+        At most once per tree, so that no later file can come to stand in front of it on the search path."""
+        if st.get('reused') or not wchain or d in t.incdirs or rnd.random() >= 0.3:
+            return None                    # (a new file in an -i directory would be found by the ancestor's include too)
+        w = rnd.choice(wchain)
+        if w.startswith(ROOT) or '..' in w.split('/'):
+            return None
+        cands = [os.path.normpath(x + '/' + w) for x in t.incdirs + [d]]
+        if any(c in t.files or c in t.bins or c in t.dirs for c in cands):
+            return None
+        st['reused'] = True
+        st['nfile'] += 1
+        st['resol'].add('ancestor-name-other-file')
+        t.dirs.add(os.path.dirname(cands[-1]))
+        return cands[-1], w
+
+    def make_file(path, depth, chain, wchain=()):
         """generate the text file at `path` (program order = generation order)"""
         d = os.path.dirname(path)
         prefix = 'F%d' % st['nfile'] if path != t.main else 'M'
@@ -280,13 +298,13 @@ def gen_tree(rnd, idx):
             st['positions'].add(slot)
             kind = 'include'
             name = new_name()
-            target, written = place(d, name, depth)
+            target, written = reuse_ancestor_name(d, wchain) or place(d, name, depth)
             form = rnd.choice(INCLUDE_FORMS)
             st['forms'].add(form.replace('%s', 'P').split('P')[0].strip() + ('q' if '"' in form or "'" in form else '') +
                             ('#' if '#' in form else ''))
             t.targets['%s:%d' % (path, len(lines))] = target
             lines.append(form % written)
-            make_file(target, depth + 1, chain + [path])
+            make_file(target, depth + 1, chain + [path], tuple(wchain) + (written,))
             last = (j == len(slots) - 1)
             if not (last and slot in ('last', 'only')):
                 lines += body_lines(rnd, st, prefix, rnd.randrange(1, 5))
